@@ -53,8 +53,8 @@ META = dict(
         "transient objects are (re)initialised with explicit attribute values before add()",
     ],
     bounds=dict(
-        quick="worlds single/twin/seeded x expire_on_commit {True,False}: all histories of depth <= 5 (single), <= 4 (twin, seeded) with canonical-state dedupe, savepoint depth <= 2, 1 born object",
-        thorough="single: depth <= 8; twin/seeded: depth <= 6; savepoint depth <= 2, 2 born objects",
+        quick="worlds single/twin/seeded x expire_on_commit {True,False}: all histories of depth <= 6 (single), <= 4 (twin), <= 5 (seeded) with canonical-state dedupe, savepoint depth <= 2, 1 born object",
+        thorough="single: depth <= 7 (2 born objects); twin: depth <= 5 (1 born); seeded: depth <= 5 (2 born); savepoint depth <= 2",
     ),
 )
 
@@ -66,10 +66,10 @@ WORLDS = dict(
     seeded=dict(universe=[("x", "Plain", {"id": 1, "name": "a"})], seed={"plain": [(1, "s")]}),
 )
 DEPTH = dict(
-    quick=dict(single=5, twin=4, seeded=4),
-    thorough=dict(single=8, twin=6, seeded=6),
+    quick=dict(single=6, twin=4, seeded=5),
+    thorough=dict(single=7, twin=5, seeded=5),
 )
-BORN = dict(quick=1, thorough=2)
+BORN = dict(quick=dict(single=1, twin=1, seeded=1), thorough=dict(single=2, twin=1, seeded=2))
 ROLLBACK_OPS = ("rollback", "sp_rollback")
 IMPLICIT_FLUSH_OPS = ("commit", "begin_nested", "sp_commit", "query", "merge")
 
@@ -213,6 +213,7 @@ def check_step(cfg, hist_, ms, op, max_born):
     w = build(cfg, hist_)
     try:
         before = w.lifecycle()
+        pre_wasdel = {n: bool(W.inspect(o).was_deleted) for n, o in w.objs.items()}
         m2 = ms.copy()
         pr = m2.apply(op)
         if pr.undefined:
@@ -223,6 +224,7 @@ def check_step(cfg, hist_, ms, op, max_born):
         eoc = cfg["eoc"]
         head = "%s(eoc=%s)" % (opclass(op), eoc) if op[0] in ("commit",) else opclass(op)
         problems = []
+        culprit = {}  # index in problems -> object name
         evs = {}
         for n, e in raw_events:
             evs.setdefault(n, []).append(e)
@@ -250,11 +252,13 @@ def check_step(cfg, hist_, ms, op, max_born):
                 continue
             p = membership_problem(w, n, st_a)
             if p:
+                culprit[len(problems)] = n
                 problems.append(("%s: object %s -> %s" % (head, pre, p), "events %r" % got_ev))
                 continue
             is_rb = op[0] in ROLLBACK_OPS or pr.outcome == "flushfail"
             p = path_problem(st_b, st_a, got_ev, op, ms, n, is_rb)
             if p:
+                culprit[len(problems)] = n
                 problems.append(("%s: %s" % ("rollback" if is_rb else head, p), "object %s -> %s events=%s" % (pre, st_a, got_ev)))
                 continue
             if pr.outcome == "flushfail" or n not in m2.objs:
@@ -263,6 +267,8 @@ def check_step(cfg, hist_, ms, op, max_born):
                 continue
             want_state = m2.objs[n].state
             want_ev = pr.events.get(n, [])
+            if st_a != want_state or got_ev != want_ev:
+                culprit[len(problems)] = n
             if st_a != want_state:
                 problems.append(
                     ("%s: object %s -> %s, documented: %s" % (head, pre, st_a, want_state), "events %r, model events %r" % (got_ev, want_ev))
@@ -272,7 +278,34 @@ def check_step(cfg, hist_, ms, op, max_born):
                 if not alt:
                     problems.append(("%s: object %s -> %s events=%s, documented: %s" % (head, pre, st_a, got_ev, want_ev), ""))
 
+        # ---- root-cause signatures (one per defect, independent of the op that exposes it)
+        for i, n in culprit.items():
+            o = ms.objs.get(n)
+            if o is None:
+                continue
+            if pre_wasdel.get(n) and o.state in (T, PE):
+                problems[i] = (
+                    "stale was_deleted: an object INSERTed and DELETEd inside a rolled-back transaction keeps "
+                    "InstanceState._deleted after it became transient; later operations treat it as a deleted object",
+                    "%s | %s" % problems[i],
+                )
+            elif o.state != D and any(n in sc.deleted for sc in ms.tx) and (op[0] in ROLLBACK_OPS + ("commit",) or pr.outcome == "flushfail"):
+                problems[i] = (
+                    "%s: an object DELETEd in the open transaction that has since left the deleted state (expunged / "
+                    "made transient / re-added) is still processed as a deleted object" % ("commit" if op[0] == "commit" and pr.outcome != "flushfail" else "rollback"),
+                    "%s | %s" % problems[i],
+                )
+        if not out.ok and pr.outcome == "ok" and op[0] in ROLLBACK_OPS + ("commit",):
+            gone = [n for n, o in ms.objs.items() if o.state != D and any(n in sc.deleted for sc in ms.tx)]
+            if gone and problems:
+                problems[0] = (
+                    "%s: an object DELETEd in the open transaction that has since left the deleted state (expunged / "
+                    "made transient / re-added) is still processed as a deleted object" % opclass(op),
+                    "%s | %s" % problems[0],
+                )
+
         canon = None
+        rows_differ = False
         if not problems and pr.outcome != "flushfail":
             if pr.value is not None and out.ok:
                 got_v = out.value[0] if op[0] == "merge" else out.value
@@ -287,7 +320,9 @@ def check_step(cfg, hist_, ms, op, max_born):
             sv = dict(canon[2])
             mv = {t: tuple(tuple(r[c] for c in W.TABLE_COLS[t]) for _, r in sorted(tr.items())) for t, tr in m2.view().items() if tr}
             if sv != mv:
-                problems.append(("%s: rows visible to the session %r, model %r" % (head, sv, mv), ""))
+                # not C35's subject (row contents are C30/C33's): the model's rows are only
+                # used to predict primary-key conflicts, so the branch is cut, not reported
+                info["rows_differ"] = (sv, mv)
         return problems, m2, pr, canon, info
     finally:
         w.close()
@@ -311,18 +346,27 @@ def make_step(cfg, rec, max_born):
                 h2 = tuple(hist_) + (("flush",),)
                 m_f = ms.copy()
                 pr_f = m_f.apply(("flush",))
-                if pr_f.outcome == "ok":
-                    p1, _, _, _, _ = check_step(cfg, hist_, ms, ("flush",), max_born)
-                    if not p1:
-                        p2, _, _, _, _ = check_step(cfg, h2, m_f, op, max_born)
+                if pr_f.outcome == "ok" and not pr_f.undefined:
+                    p1, _, _, _, info1 = check_step(cfg, hist_, ms, ("flush",), max_born)
+                    if p1:
+                        sig, detail = p1[0]
+                        info = info1
+                        op = ("flush",)
+                        case["op"] = ["flush"]
+                    else:
+                        p2, _, _, _, info2 = check_step(cfg, h2, m_f, op, max_born)
                         if p2:
                             sig, detail = p2[0]
+                            info = info2
                             case["history"] = [list(h) for h in h2]
             detail = "%s\nhistory: %s\nop: %s\nobserved: %s" % (detail, [list(h) for h in case["history"]], list(op), info)
             rec.violation("C35 " + sig, detail, case)
             return None
+        if info.get("rows_differ"):
+            rec.count("branches cut: database rows differ from the model's (row switch after make_transient_to_detached)")
+            return None
         if pr.undefined:
-            rec.count("ops skipped: outcome undocumented (pending object claims the identity of a row-less persistent object)")
+            rec.count("ops skipped: outcome undocumented (a persistent object without a row is flushed / merged onto)")
             return None
         if pr.outcome == "flushfail" or pr.terminal:
             rec.count("histories ending in a failed flush (not continued)")
@@ -359,7 +403,7 @@ def run_shard(shard, tier, rec):
     try:
         for world, eoc in CONFIGS:
             cfg = make_cfg(world, eoc)
-            max_born = BORN[tier]
+            max_born = BORN[tier][world]
             depth = DEPTH[tier][world]
             ms0 = C35Model(cfg)
             w0 = build(cfg, ())
